@@ -149,6 +149,18 @@ pub struct RawGenOpts {
     /// polygons that are not rectilinear may carry nets
     pub nonrect_nets: bool,
     pub max_cells: usize,
+    /// some polygons (and outlines) repeat their first vertex at the end; only for conversions that
+    /// must keep the point list as it is (GDS closes boundaries itself, so not there)
+    pub closed_polygons: bool,
+}
+fn maybe_close(src: &mut Src, o: &RawGenOpts, g: RGeom) -> RGeom {
+    match g {
+        RGeom::Poly(mut v) if o.closed_polygons && src.prob(1, 4) => {
+            v.push(v[0]);
+            RGeom::Poly(v)
+        }
+        g => g,
+    }
 }
 
 const WINDOW: i64 = 64;
@@ -337,6 +349,7 @@ pub fn gen_rawlib(src: &mut Src, o: &RawGenOpts) -> RLib {
                 let cand: Vec<usize> = (0..layers[layer].purposes.len()).filter(|i| layers[layer].purposes[*i].1 != RPurpose::Label).collect();
                 let purpose = cand[src.index(cand.len())];
                 let (geom, kind) = gen_geom(src, k);
+                let geom = maybe_close(src, o, geom);
                 let mut net = if src.prob(3, 5) { Some(src.pick(NETS).to_string()) } else { None };
                 if net.is_some() && o.nets_need_label_purpose && layers[layer].label_num().is_none() {
                     net = None;
@@ -362,7 +375,10 @@ pub fn gen_rawlib(src: &mut Src, o: &RawGenOpts) -> RLib {
         }
         let abs = if o.abstracts && (abs_only || src.prob(1, 4)) {
             let (w, h) = (src.i64_in(10, 400), src.i64_in(10, 400));
-            let outline = vec![(0, 0), (w, 0), (w, h), (0, h)];
+            let mut outline = vec![(0, 0), (w, 0), (w, h), (0, h)];
+            if o.closed_polygons && src.prob(1, 4) {
+                outline.push((0, 0));
+            }
             let np = src.usize_in(0, 3);
             let mut ports = vec![];
             let pin_layers: Vec<usize> = (0..layers.len()).filter(|i| layers[*i].purposes.iter().any(|p| p.1 == RPurpose::Pin) && layers[*i].name.is_some()).collect();
@@ -373,14 +389,14 @@ pub fn gen_rawlib(src: &mut Src, o: &RawGenOpts) -> RLib {
                 let nl = src.usize_in(1, pin_layers.len().min(3));
                 let mut idx: Vec<usize> = pin_layers.clone();
                 src.shuffle(&mut idx);
-                let shapes = idx[..nl].iter().enumerate().map(|(k, l)| (*l, (0..src.usize_in(1, 2)).map(|j| gen_geom(src, pi * 6 + k * 2 + j).0).collect())).collect();
+                let shapes = idx[..nl].iter().enumerate().map(|(k, l)| (*l, (0..src.usize_in(1, 2)).map(|j| { let g = gen_geom(src, pi * 6 + k * 2 + j).0; maybe_close(src, o, g) }).collect())).collect();
                 ports.push(RPort { net: format!("p{}", pi), shapes });
             }
             let obs_layers: Vec<usize> = (0..layers.len()).filter(|i| layers[*i].purposes.iter().any(|p| p.1 == RPurpose::Obstruction) && layers[*i].name.is_some()).collect();
             let nb = src.usize_in(0, obs_layers.len().min(3));
             let mut idx: Vec<usize> = obs_layers.clone();
             src.shuffle(&mut idx);
-            let blockages = idx[..nb].iter().enumerate().map(|(k, l)| (*l, (0..src.usize_in(1, 2)).map(|j| gen_geom(src, 20 + k * 2 + j).0).collect())).collect();
+            let blockages = idx[..nb].iter().enumerate().map(|(k, l)| (*l, (0..src.usize_in(1, 2)).map(|j| { let g = gen_geom(src, 20 + k * 2 + j).0; maybe_close(src, o, g) }).collect())).collect();
             Some(RAbs { outline, ports, blockages })
         } else {
             None
